@@ -459,8 +459,6 @@ pub fn run(ctx: &Ctx) -> Report {
     }
     rep.extra("levels", json!(levels));
     rep.extra("lines_in_pool", json!(nl));
-    rep.local.states.extend(rep.local.nontrivial.iter().copied());
-    rep.local.transitions = rep.local.evaluations;
     rep.assumptions = vec!["reference assembler (refasm.rs) is written from the documented rules; inputs outside its defined domain (value-dependent sizes, strings, blocks it does not model) carry no verdict".into(), "iteration budget fixed at 30 so that convergence is never the reason for a failure".into()];
     rep.require_class("ref-success");
     rep.require_class("ref-error:no match for instruction");
